@@ -412,7 +412,17 @@ func S2CDelay(t2, t3 time.Time, t3Corr, utcCorr time.Duration) time.Duration {
 }
 
 func MeanPathDelay(t0, t1, t2, t3 time.Time, t1Corr, t3Corr time.Duration) time.Duration {
-	return ((t1.Sub(t0) - t1Corr) + (t3.Sub(t2) - t3Corr)) / 2
+	// The sum of the two terms is twice the delay and does not fit into a
+	// Duration for delays beyond about 146 years, although the delay itself
+	// does: then the terms are halved before they are added.
+	x := t1.Sub(t0) - t1Corr
+	y := t3.Sub(t2) - t3Corr
+	d := x + y
+	if (x < 0) == (y < 0) && (d < 0) != (x < 0) {
+		// x + y overflowed
+		return x/2 + y/2 + (x%2+y%2)/2
+	}
+	return d / 2
 }
 
 func ClockOffset(t0, t1, t2, t3 time.Time, t1Corr, t3Corr time.Duration) time.Duration {
